@@ -107,11 +107,16 @@ OPS = [
     ('fn-own-param', 'D', b'A$=FNS$(B$)'),
     ('fn-param-live', 'D', b'A$=FNT$(A$)'),
     ('too-long', 'D', b'A$=STRING$(200,"z")'),
+    # a collection in the middle of an expression whose value is a direct variable reference
+    ('copy-elem-gc', 'D', b'A$=C$(FRE("")*0+1)'),
+    ('elem0-chr', 'D', b'C$(0)=CHR$(65)'),
+    ('copy-elem0-gc', 'D', b'B$=C$(FRE("")*0)'),
 ]
 LABELS = [o[0] for o in OPS]
 QUICK_OPS = [LABELS.index(l) for l in (
     'lit5-code', 'lit9-code', 'append-code', 'midset', 'lset', 'copy', 'concat-elem', 'swap', 'swap-elem',
-    'elem-concat', 'erase', 'temps-only', 'fn-param-live', 'too-long')]
+    'elem-concat', 'erase', 'temps-only', 'fn-param-live', 'too-long', 'copy-elem-gc', 'elem0-chr', 'copy-elem0-gc',
+    'rset')]
 
 # memory configurations: free bytes of the set-up session
 CONFIGS = {'f12': 12, 'f24': 24, 'f40': 40, 'big': None}
@@ -208,6 +213,15 @@ def ref_step(ref, label):
     elif label == 'elem-string9':
         elems()[2] = b'k' * 9
         need += 1 + 9
+    elif label == 'copy-elem-gc':
+        n.a = elems()[1]
+        need += len(n.a)
+    elif label == 'elem0-chr':
+        elems()[0] = b'A'
+        need += 1
+    elif label == 'copy-elem0-gc':
+        n.b = elems()[0]
+        need += len(n.b)
     elif label == 'erase':
         if ref.c is None:
             return E_IFC, ref, 0
